@@ -5,6 +5,7 @@ import (
 
 	"github.com/tidwall/geojson/geometry"
 	"verif/mc/exact"
+	"verif/mc/lat"
 	"verif/mc/rt"
 )
 
@@ -74,11 +75,25 @@ func c19NearParallel(r *rt.Run) {
 	}
 	var jobs []job
 	nearParDirs(1<<20-4, r.Thorough(), func(bi int, m int64, d1, d2 exact.P) { jobs = append(jobs, job{bi, m, d1, d2}) })
+	nInt := len(jobs)
+	// the same family on a grid of 1/64 (lengths above 2^20 lattice units only:
+	// the shorter ones are power-of-two copies of the integer ones)
+	nearParDirs(1<<25, r.Thorough(), func(bi int, m int64, d1, d2 exact.P) {
+		if m > 1<<20 {
+			jobs = append(jobs, job{bi, m, d1, d2})
+		}
+	})
 	r.Bounds["near_parallel_direction_pairs"] = len(jobs)
-	t := Xf{Scale: 1}
 	centres := []exact.P{{X: 0, Y: 0}, {X: 3, Y: -2}}
 	r.ParFor(len(jobs), func(i int, w *rt.Worker) {
 		jb := jobs[i]
+		t := Xf{Scale: 1}
+		lim := int64(1) << 20
+		if i >= nInt {
+			t = Xf{Scale: 1.0 / 64}
+			lim = 1 << 26
+		}
+		in20 := func(p exact.P) bool { return abs64i(p.X) <= lim && abs64i(p.Y) <= lim }
 		for _, c := range centres {
 			a, b := psub(c, jb.d1), padd(c, jb.d1)
 			fs := geometry.Segment{A: t.pt(a), B: t.pt(b)}
@@ -126,6 +141,16 @@ func c19NearParallel(r *rt.Run) {
 						in := !on && exact.RayCross(p.R(), a, b)
 						fp := t.pt(p)
 						w.Evals++
+						if got := fs.CollinearPoint(fp); got != exact.Collinear(p, a, b) {
+							w.Fail("collinear-near-parallel", func() (rt.Case, string, string) {
+								return rt.Case{Kind: "seg-point", Op: "collinear", A: segG(fs.A, fs.B), B: ptG(fp), X: t.x()}, fmt.Sprint(!got), fmt.Sprint(got)
+							})
+						}
+						if got := fs.ContainsPoint(fp); got != on {
+							w.Fail("containspoint-near-parallel", func() (rt.Case, string, string) {
+								return rt.Case{Kind: "seg-point", Op: "containspoint", A: segG(fs.A, fs.B), B: ptG(fp), X: t.x()}, fmt.Sprint(on), fmt.Sprint(got)
+							})
+						}
 						if res := fs.Raycast(fp); res.On != on || res.In != in {
 							w.Fail("raycast-near-parallel", func() (rt.Case, string, string) {
 								return rt.Case{Kind: "seg-point", Op: "raycast", A: segG(fs.A, fs.B), B: ptG(fp), X: t.x()},
@@ -250,4 +275,126 @@ func c18NearParallel(r *rt.Run) {
 			}
 		}
 	})
+}
+
+// c18Moved: series obtained through Move. Every vertex sequence of length
+// 3..depth over the 3x3 lattice, realised with x in lattice units and y in
+// units of 2^-40 (the turn signs are those of the lattice sequence), as ring
+// and as open line, then moved by an exact offset, by an offset inexact in
+// binary and by (0, 2^19), which absorbs the y differences altogether: the
+// moved series' flags, rectangle, segment count and segments must be those of
+// a series built directly from its own positions (and, for the exact offset,
+// those of the definition).
+func c18Moved(r *rt.Run) {
+	depth := 4
+	if r.Thorough() {
+		depth = 5
+	}
+	L := lat.Lattice(3, -1)
+	short, pre := lat.Shards2(L)
+	_ = short
+	tiny := 1.0 / (1 << 40)
+	deltas := c18MoveDeltas
+	r.Bounds["moved_series_depth"] = depth
+	r.ParFor(len(pre), func(i int, w *rt.Worker) {
+		lat.SeqsFrom(L, pre[i], 3, depth, func(seq []exact.P) {
+			fp := make([]geometry.Point, len(seq))
+			for k, p := range seq {
+				fp[k] = geometry.Point{X: float64(p.X), Y: float64(p.Y) * tiny}
+			}
+			poly := geometry.NewPoly(fp, nil, idxNone)
+			ring := poly.Exterior
+			line := geometry.NewLine(fp, idxNone)
+			wantConvex, wantCW := exact.Convex(seq), exact.Area2(exact.Cyclic(seq)) < 0
+			w.States++
+			if ring.Convex() != wantConvex || ring.Clockwise() != wantCW {
+				w.Fail("ring-flags-anisotropic", func() (rt.Case, string, string) {
+					return rt.Case{Kind: "moved-series", Op: "source", A: &rt.G{K: "ring", P: f2(fp)}}, fmt.Sprintf("convex=%v cw=%v", wantConvex, wantCW), fmt.Sprintf("convex=%v cw=%v", ring.Convex(), ring.Clockwise())
+				})
+			}
+			for di, d := range deltas {
+				for si := 0; si < 2; si++ {
+					var mv geometry.Series
+					if si == 0 {
+						mv = poly.Move(d[0], d[1]).Exterior
+					} else {
+						mv = line.Move(d[0], d[1])
+					}
+					n := mv.NumPoints()
+					own := make([]geometry.Point, n)
+					for k := 0; k < n; k++ {
+						own[k] = mv.PointAt(k)
+					}
+					var fresh geometry.Series
+					if si == 0 {
+						fresh = geometry.NewPoly(own, nil, idxNone).Exterior
+					} else {
+						fresh = geometry.NewLine(own, idxNone)
+					}
+					w.States++
+					w.Evals++
+					w.Nontriv++
+					a, b := observeSeries(mv), observeSeries(fresh)
+					bad := n != len(fp) || a.convex != b.convex || a.cw != b.cw || a.rect != b.rect || a.nseg != b.nseg || mv.Empty() != fresh.Empty()
+					if !bad {
+						for k := range a.segs {
+							if a.segs[k] != b.segs[k] {
+								bad = true
+							}
+						}
+						for k := range own {
+							if own[k] != (geometry.Point{X: fp[k].X + d[0], Y: fp[k].Y + d[1]}) {
+								bad = true
+							}
+						}
+					}
+					if bad {
+						di, si := di, si
+						w.Fail("moved-series-attributes", func() (rt.Case, string, string) {
+							return rt.Case{Kind: "moved-series", Op: fmt.Sprintf("%d/%d", di, si), A: &rt.G{K: "ring", P: f2(fp)}},
+								fmt.Sprintf("as built from its own positions: convex=%v cw=%v rect=%v nseg=%d", b.convex, b.cw, b.rect, b.nseg),
+								fmt.Sprintf("convex=%v cw=%v rect=%v nseg=%d npoints=%d", a.convex, a.cw, a.rect, a.nseg, n)
+						})
+					}
+				}
+			}
+		})
+	})
+}
+
+var c18MoveDeltas = [][2]float64{{3, -5}, {0.1, 0.3}, {0, 1 << 19}, {0, 0}}
+
+func evalC18Moved(c *rt.Case) (bool, string, string, error) {
+	fp := g2(c.A.P)
+	poly := geometry.NewPoly(fp, nil, idxNone)
+	line := geometry.NewLine(fp, idxNone)
+	if c.Op == "source" {
+		return false, "", "", fmt.Errorf("source flags are re-checked by the run only")
+	}
+	var di, si int
+	fmt.Sscanf(c.Op, "%d/%d", &di, &si)
+	if di < 0 || di >= len(c18MoveDeltas) || si < 0 || si > 1 {
+		return false, "", "", fmt.Errorf("malformed case")
+	}
+	d := c18MoveDeltas[di]
+	var mv geometry.Series
+	if si == 0 {
+		mv = poly.Move(d[0], d[1]).Exterior
+	} else {
+		mv = line.Move(d[0], d[1])
+	}
+	n := mv.NumPoints()
+	own := make([]geometry.Point, n)
+	for k := 0; k < n; k++ {
+		own[k] = mv.PointAt(k)
+	}
+	var fresh geometry.Series
+	if si == 0 {
+		fresh = geometry.NewPoly(own, nil, idxNone).Exterior
+	} else {
+		fresh = geometry.NewLine(own, idxNone)
+	}
+	a, b := observeSeries(mv), observeSeries(fresh)
+	bad := n != len(fp) || a.convex != b.convex || a.cw != b.cw || a.rect != b.rect || a.nseg != b.nseg
+	return bad, fmt.Sprintf("convex=%v cw=%v rect=%v nseg=%d", b.convex, b.cw, b.rect, b.nseg), fmt.Sprintf("convex=%v cw=%v rect=%v nseg=%d", a.convex, a.cw, a.rect, a.nseg), nil
 }
